@@ -313,6 +313,12 @@ def case_fn(ctx, inp):
         if kw:
             ctx.branch(fn + " with keywords")
         fill = fn.startswith("masked_") and isinstance(a, np.ma.MaskedArray)
+        if fn in ("masked_inside", "masked_outside") and a.dtype.kind in "iu" and got[0] == "ok":
+            flat = np.ma.masked_array(a).ravel() if not isinstance(a, np.ma.MaskedArray) else a.ravel()
+            m = ctx.lean(Sym("mainside"), fn == "masked_outside", int(args[0]), int(args[1]), enc_m(flat))
+            ctx.eq(f"{fn}: Lean (bounds normalised as numpy.ma does) vs dask", [v == "m" for v in m],
+                   np.ma.getmaskarray(got[1]).ravel().tolist())
+            ctx.branch("lean-value")
     exact = fn not in ("average",)
     compare(ctx, fn, got, exp, exact, U.fsum_abs(np.ma.getdata(a)), fill=fill)
     branches(ctx, a, chunks)
